@@ -194,14 +194,15 @@ ADDENDA = {
            "archive_dep_pruned (the dependencies of a component that has a value are no keys afterwards) and runArchive_once_after_deps (at most once, seeds kept, attempts within the given graph, "
            "no dependency of a loaded component attempted) are proved, and the pruned key list and the whole evaluation are compared with dr.run on every generated loaded-archive evaluation.",
     "C02": "Also tied: 'default off, named components on' configurations (apply_default_enabled(False) followed by set_enabled(c, True)).",
-    "C03": "Also tied: one exception OBJECT met by several parsers of one input (a provider's cached failure): a record is demanded for every raiser.",
+    "C03": "Also tied: one exception OBJECT met by several parsers of one input (a provider's cached failure): a record is demanded for every raiser; failed commands carry the exit statuses a shell really gives (127, 126, 124, 137, ...).",
+    "C04": "Also tied: histories in which an incremental evaluation of another graph was started and abandoned after its first sub-graph, and two get_subgraphs generators alive at once: every schedule and every generator must yield what it yields without that history; dr.run(c) for a falsy component object is a listed known finding (falsy-component-run).",
     "C06": "Also tied: the providers built when a serialized archive is loaded again (initialize_broker / Hydration.hydrate -> the six deserializers -> SerializedOutputProvider / "
            "SerializedRawOutputProvider), on generated archives whose data files are symlinks to outside, lie behind symlinked directories, or are recorded with '..' segments; "
            "loaded or dropped per spec is compared with the model's mkFile over the data root, with the oracle on the kernel-resolved context root.",
     "C11": "Also tied: raw results of MAX_CONTENT_SIZE -1/+0/+1/+4096 bytes (real constant, sparse files) persisted and loaded through the public entry points, loaded content compared "
            "byte for byte with the source (oracle-only stream, covered in the model by roundtrip_raw).",
     "C13": "Also tied: attributes outside name/epoch/version/release (arch, yum repository) vary independently on the compared objects; operators are checked between every listed "
-           "build and newest()/oldest() of the real rpm -qa / yum list parsers.",
+           "build and newest()/oldest() of the real rpm -qa / yum list parsers; digit runs of up to 9000 characters (beyond CPython's str->int limit) through code and model; consecutive comparisons of packages that print alike but split differently into version and release.",
     "C14": "Also tied: a history stream (about 2100 get_after calls per quick run in sequences of 2-5 over ambiguous format pairs, shared stamp texts, subclass / per-instance / "
            "re-assigned class formats, str/list/dict forms, instance reuse), each call compared with the pure model and the oracle for that call alone "
            "(get_after_depends_only_on_own_lines).",
